@@ -111,6 +111,11 @@ def shaped_cases(tier):
                                 (a2, [A.node(A.var("h2")), A.attrn(A.var("h2"), A.attr("other", A.rcap(0)))])))
         prog = A.file([A.stanza("(return_statement (_)? @v) @ret ", stmts)])
         cases += A.both_modes("c02s-%d" % k, prog, r.choice([3, 11]))      # sources with return statements
+    # a group beyond the groups of the arm's regular expression is an execution error in both modes (F2: lazy mode indexed out of bounds)
+    for k, (re_, subj, g) in enumerate([("(a)|(b)", "ab", 2), ("[a-z]+", "ab cd", 0), ("x(y)?", "xyx", 1)]):
+        for extra in (1, 5):
+            stmts = [A.node(A.var("n")), A.scan(A.string(subj), (re_, [A.attrn(A.var("n"), A.attr("ok", A.rcap(g)), A.attr("bad", A.rcap(g + extra)))]))]
+            cases += A.both_modes("c02g-%d-%d" % (k, extra), A.file([A.stanza("(module) @_m ", stmts)]), 3)
     return cases
 
 
